@@ -90,6 +90,47 @@ pub fn recursive_program(idx: u64) -> Program {
             p.funcs.push(func("main", vec![call(if rng.chance(1, 2) { ping } else { pong }), inc(m)]));
         }
     }
+    // further functions are defined right before main, which calls into them
+    let mut extra: Vec<Func> = Vec::new();
+    let at = p.funcs.len() - 1;
+    let mut main_calls: Vec<usize> = Vec::new();
+    match idx % 4 {
+        1 => {
+            // functions in another bank: called from bank 0 through a Call<name> stub
+            extra.push(func("bk1_far2", vec![inc(m)]));
+            extra.push(func("bk1_far", vec![inc(r), call(at)])); // same-bank call inside bank 1
+            main_calls.push(at + 1);
+        }
+        2 => {
+            // a call in the update clause of a for loop; an inline function with a callee,
+            // expanded in two functions of which the first is unreachable
+            extra.push(func("nxt", vec![inc(r)])); // at
+            extra.push(func("beep", vec![inc(r)])); // at + 1
+            let mut fl = func("lose_life", vec![call(at + 1)]); // at + 2
+            fl.inline = true;
+            extra.push(fl);
+            extra.push(func("debug_kill", vec![call(at + 2)])); // at + 3: nothing calls it
+            let upd = Expr::Comma(Box::new(Expr::Call(at, vec![])), Box::new(Expr::IncDec { lv: LV::Var(m), post: true, inc: true }));
+            let lp = Stmt::For(
+                Some(Expr::Assign(LV::Var(m), Box::new(Expr::Num(0)))),
+                Some(Expr::Bin(BinOp::Ne, Box::new(lv(m)), Box::new(Expr::Num(2)))),
+                Some(upd),
+                Box::new(Stmt::Block(vec![inc(r)])),
+            );
+            extra.push(func("user", vec![lp, call(at + 2)])); // at + 4
+            main_calls.push(at + 4);
+        }
+        _ => {}
+    }
+    let n_extra = extra.len();
+    if n_extra > 0 {
+        let mut main = p.funcs.pop().unwrap();
+        p.funcs.extend(extra);
+        for c in main_calls {
+            main.body.push(call(c));
+        }
+        p.funcs.push(main);
+    }
     p
 }
 
@@ -218,7 +259,7 @@ fn judge(kind: &str, idx: u64, p: &Program, tag: &str) -> CaseResult {
         if let Some(of) = obs.funcs.iter().find(|x| x.name == f.name) {
             if let Some(t) = &of.text {
                 for m in names.difference(&published) {
-                    if t.lines().any(|l| l.trim() == format!("JSR {}", m)) {
+                    if t.lines().any(|l| l.trim() == format!("JSR {}", m) || l.trim() == format!("JSR Call{}", m)) {
                         viol(&mut res, format!("function {}: emitted code contains 'JSR {}' but functions_call_tree[{}] = {:?} does not record it", f.name, m, f.name, published));
                         return res;
                     }
@@ -267,6 +308,11 @@ fn judge(kind: &str, idx: u64, p: &Program, tag: &str) -> CaseResult {
                 let l = l.trim();
                 if let Some(target) = l.strip_prefix("JSR ") {
                     let target = target.split_whitespace().next().unwrap_or("");
+                    // a call into another bank goes through the stub Call<name> the builder provides
+                    let target = match target.strip_prefix("Call") {
+                        Some(t) if obs.funcs.iter().any(|x| x.name == t) => t,
+                        _ => target,
+                    };
                     res.count("JSR instructions checked against the tree", 1);
                     if !allowed.contains(target) {
                         viol(&mut res, format!("emitted code of {} contains 'JSR {}' but the call tree (closed over inline callees) only allows {:?}", f.name, target, allowed));
